@@ -294,11 +294,12 @@ class StingySelectH(_B):
 
     def run(self, c, st):
         self.begin_call(c)
-        return list(st["cfg"].select({"a": 1}, solver=st["solver"], only_leafs=c.state_case["only_leafs"]))
+        # the request names a leaf AND a named sub-proposition (an ordinary column of the polyhedron)
+        return list(st["cfg"].select({"a": 1, "R": 2}, solver=st["solver"], only_leafs=c.state_case["only_leafs"]))
 
     def ensures(self, c, st, res):
         rec, vals = st["rec"], st["vals"]
-        out = [("stingy/forward", rec.get("prios") == [{"a": 1}] and rec.get("solver") is st["solver"]),
+        out = [("stingy/forward", rec.get("prios") == [{"a": 1, "R": 2}] and rec.get("solver") is st["solver"]),
                ("stingy/count", len(res) == 2)]
         if len(res) != 2:
             return out
@@ -329,12 +330,18 @@ class StingySelectH(_B):
         def solver(p, objs):
             rec["calls"] = rec.get("calls", 0) + 1
             rec["cols"] = [v.id for v in p.A.variables]
+            rec["objs"] = [[int(t) for t in o] for o in objs]
             return [(np.arange(100, 100 + p.A.shape[1]), 7, 5), (None, 0, 4)][: len(objs)] if len(objs) <= 2 else \
                 [(np.arange(100, 100 + p.A.shape[1]), 7, 5)] * len(objs)
         only = w["case"]["only_leafs"]
-        res = list(cfg.select({"a": 1}, {"b": 1}, solver=solver, only_leafs=only))
-        violated, detail = [], {"columns": [str(x) for x in rec.get("cols", [])]}
-        if rec.get("calls") != 1:
+        res = list(cfg.select({"a": 1, "R": 2}, {"b": 1}, solver=solver, only_leafs=only))
+        violated, detail = [], {"columns": [str(x) for x in rec.get("cols", [])], "objectives": rec.get("objs")}
+        # forwarded unchanged: one solver call, and every id named in the request (leaf or named sub-proposition) carries weight
+        fwd = rec.get("calls") == 1
+        if fwd:
+            o0 = dict(zip(rec["cols"], rec["objs"][0]))
+            fwd = o0.get("a", 0) > 0 and o0.get("R", 0) > o0.get("a", 0)
+        if not fwd:
             violated.append("stingy/forward")
         if len(res) != 2:
             violated.append("stingy/count")
